@@ -306,7 +306,7 @@ def judge(ctx: core.Ctx, case: dict[str, Any]) -> None:
             return
         if not o.ok:
             ctx.evaluations += 1
-            ctx.violation(f"scope:raises-{o.err_class}", f"{src!r:.300} raised {o.err_class}: {str(o.exc)[:80]}")
+            ctx.violation(f"scope:raises-{o.err_class}", f"{src!r:.300} raised {o.err_class}: {drv.safe_str(o.exc)[:80]}")
             return
         if o.value != exp:
             ctx.evaluations += 1
@@ -327,7 +327,7 @@ def judge(ctx: core.Ctx, case: dict[str, Any]) -> None:
         return
     if not o.ok:
         ctx.evaluations += 1
-        ctx.violation(f"path:raises-{o.err_class}", f"{src!r} raised {o.err_class}: {str(o.exc)[:80]}")
+        ctx.violation(f"path:raises-{o.err_class}", f"{src!r} raised {o.err_class}: {drv.safe_str(o.exc)[:80]}")
         return
     if o.value != exp2:
         ctx.evaluations += 1
